@@ -154,7 +154,16 @@ def judge(p, e, r):
         return bad
     if mt != st:
         bad.append("final status differs: threaded %s, single-threaded %s" % (RET.get(mt, mt), RET.get(st, st)))
-    if r["mt_len"] != r["st_len"]:
+    # Rejected input decoded without any worker thread (direct mode): the "threaded" decoder ran the very same Block decoder
+    # as the single-threaded one, with the application's slicing; how many bytes that decoder hands out in front of an error
+    # can depend on the slicing (C06's subject; behind a BCJ filter the tail is not even filtered). There the status must be
+    # equal and the output must be a prefix of a single-threaded output. With worker threads the comparison is exact (against
+    # the three single-threaded reference slicings; behind BCJ: length only).
+    direct_reject = st != 1 and int(r.get("thr", "1")) <= 1
+    if direct_reject:
+        if r["same"] != "1" and r["prefix"] != "1" and not e.get("bcj"):
+            bad.append("direct mode, rejected input: output is not a prefix of the single-threaded output")
+    elif r["mt_len"] != r["st_len"]:
         bad.append("output length differs: threaded %s, single-threaded %s" % (r["mt_len"], r["st_len"]))
     elif r["same"] != "1" and not (e.get("bcj") and st != 1):
         bad.append("output bytes differ")
